@@ -492,6 +492,9 @@ impl HelpTemplate<'_, '_> {
                     arg.get_id(),
                     longest
                 );
+            } else {
+                // Only `-x` is written for these but it may carry a suffix (e.g. `-v...`)
+                longest = longest.max(display_width(&arg.to_string()));
             }
 
             let key = (sort_key)(arg);
